@@ -12,10 +12,10 @@ def nontrivial(cfg):
     from_default = False
     for var in cfg['variants']:
         for f in var['fields']:
-            if any(f.get(k, 'own') != 'own' for k in ('eq', 'ord', 'hash', 'dbg', 'clone')) or f.get('rank', 'none') != 'none' \
+            if any(f.get(k, 'own') != 'own' for k in ('eq', 'ord', 'hash', 'dbg', 'clone')) or f.get('rank', -999) != -999 \
                     or f.get('key', '') or f.get('dflt', 'none') != 'none' or f.get('deref') or f.get('dmut') or f.get('into'):
                 from_default = True
-        if var.get('dname', 'default') != 'default' or var.get('dnf', 'default') != 'default' or var.get('dflt') or var.get('disc', 'none') != 'none':
+        if var.get('dname', 'default') != 'default' or var.get('dnf', 'default') != 'default' or var.get('dflt') or var.get('disc', -999) != -999:
             from_default = True
     return from_default or len(cfg['variants']) > 1
 
@@ -100,6 +100,55 @@ def c02(ctx):
                'non-trivial = more than one variant or a non-default field attribute')
 
 
+# ---------------------------------------------------------------- C03
+def c03(ctx):
+    quick = ctx.tier == 'quick'
+    runs = [{'module': 'MC_C03', 'cfg': 'MC_C03_quick.cfg', 'workers': 8}] if quick else \
+           [{'module': 'MC_C03', 'cfg': 'MC_C03_thorough.cfg', 'workers': 12, 'timeout': 3000, 'heap': '16g'}]
+
+    def calls(r):
+        out = []
+        if 'Ord' in r.traits:
+            out.append('run_cmp::<%s, _>(&mut out, &dom, &all_pairs);' % r.name)
+            if 'PartialOrd' in r.traits:
+                out.append('run_pcmp::<%s, _>(&mut out, &dom, &all_pairs);' % r.name)
+        else:
+            out.append('run_pcmp::<%s, _>(&mut out, &with_nan(&dom), &all_pairs);' % r.name)
+        return out
+
+    r_property(ctx, runs, ['DoSeal', 'DoBegin', 'Step', 'Return'], TypeRender, calls, [0, 1] if quick else [0, 1, 2],
+               COMMON_ASSUMPTIONS,
+               'struct/enum shapes within the bounds of the MC_C03 cfg x {own, ignore, method} x ranks (default and explicit, every spelling) per field x the four '
+               'ways of educing ordering (PartialOrd alone; PartialOrd+Ord with parameters under Ord(..) or PartialOrd(..); Ord with a hand-written PartialOrd); '
+               'all ordered pairs of values (plus the incomparable value for a stand-alone PartialOrd); cmp and partial_cmp; '
+               'non-trivial = more than one variant or a non-default field attribute')
+
+
+# ---------------------------------------------------------------- C05
+def c05(ctx):
+    quick = ctx.tier == 'quick'
+    runs = [{'module': 'MC_C05', 'cfg': 'MC_C05_quick.cfg', 'workers': 8}] if quick else \
+           [{'module': 'MC_C05', 'cfg': 'MC_C05_thorough.cfg', 'workers': 12, 'timeout': 3000, 'heap': '16g'}]
+
+    def calls(r):
+        return ['run_hashes::<%s, _>(&mut out, &dom);' % r.name]
+
+    r_property(ctx, runs, ['DoSeal', 'DoBegin', 'Step', 'Return'], TypeRender, calls, [0, 1] if quick else [0, 1, 2],
+               COMMON_ASSUMPTIONS + ['the probe Hash impls write self-delimiting, value-distinguishing data (stated as OwnFeed/MethodFeed in EduceRun.tla)'],
+               'struct/enum shapes within the bounds of the MC_C05 cfg x Hash {own, ignore, method} per field, PartialEq educed alongside with the same ignore choices; '
+               'every value of every type hashed into a recording Hasher (one trace record per type holding all observations and all == results); '
+               'the record is judged over all pairs of values; non-trivial = more than one variant or a non-default field attribute')
+    # trace_events counts types here; report observations as evaluations
+    n_obs = 0
+    with open(os.path.join(ctx.workdir, 'trace.ndjson')) as f:
+        for line in f:
+            n_obs += len(json.loads(line).get('obs', []))
+    ctx.coverage['evaluations'] = n_obs
+    ctx.coverage['hash_observations'] = n_obs
+
+
 REGISTRY = {
+    'C05': c05,
+    'C03': c03,
     'C02': c02,
 }
